@@ -325,3 +325,44 @@ Proof.
       destruct E as (b & E). exact (qs_create _ _ _ _ _ _ E).
   - intro H. apply (f_equal (fun l => nthZ l 3)) in H. vm_compute in H. discriminate.
 Qed.
+
+(** ** ... and composed (Proofs/RemountHist.v): a mounted volume, ANY history of create / makedir / remove / removedir / handle close, then
+    close — mounting the device again yields EXACTLY the closed state (header, geometry, table, reserved bits, device), reported clean; with
+    C03_remounted_dirs every directory, hence every lookup and listing, reads the same.  The premises are about the state the history starts
+    from (what a mount establishes); nothing is assumed about the states in between. *)
+From PyFatV Require Import Proofs.RemountHist.
+Theorem C03_remount_after_history : forall s s1 s2 pc es,
+  qinv s -> synced s ->
+  hdr_wf (s_h s) -> Gen.verify_bpb_header (s_h s) = Ok tt ->
+  s_p s = set_bytes_per_cluster (Gen.parse_header_geometry pf_init (s_h s)) (BPB_BytsPerSec (s_h s) * BPB_SecPerClus (s_h s)) ->
+  0 <= BS_Reserved1 (s_h s) < 256 -> 512 <= s_dsize s -> 1 <= BPB_NumFATs (s_h s) ->
+  (ft s = Gen.FAT_TYPE_FAT32 -> 512 <= BPB_BkBootSec (s_h s) * bps s /\ BPB_BkBootSec (s_h s) * bps s + 512 <= fat_start s) ->
+  (ft s <> 32 -> s_hi s = []) -> 1 < lenZ (s_fat s) ->
+  clos_refl_trans st qstep s s1 -> mark_clean s1 = Ok s2 -> read_dir s2 (root_loc s2) = Ok es ->
+  mount (s_dev s2) (s_dsize s) true pc = Ok (reset s2 true pc, false).
+Proof. exact remount_after_quiescent_history. Qed.
+Print Assumptions C03_remount_after_history.
+(** non-vacuity: the history of C03_quiescent_example (a makedir and a create on the FAT16 volume), closed and mounted again *)
+Definition ex03_d : st := match mark_clean ex03_c with Ok s => s | Err _ => ex03_c end.
+Example C03_remount_after_history_example :
+  mount (s_dev ex03_d) (s_dsize ex16_s1) true false = Ok (reset ex03_d true false, false) /\ s_fat ex03_d <> s_fat ex16_s1.
+Proof.
+  destruct C03_quiescent_example as (Hq & Hsy & Hh & Hne).
+  assert (Ec : mark_clean ex03_c = Ok ex03_d) by (vm_compute; reflexivity).
+  assert (Hroot : exists es, read_dir ex03_d (root_loc ex03_d) = Ok es) by (eexists; vm_compute; reflexivity).
+  destruct Hroot as (es & Hroot). split.
+  - apply (remount_after_quiescent_history ex16_s1 ex03_c ex03_d false es Hq Hsy).
+    + split; [vm_compute; repeat split; try discriminate; reflexivity | vm_compute; repeat split; reflexivity].
+    + vm_compute. reflexivity.
+    + vm_compute. reflexivity.
+    + vm_compute. split; [discriminate|reflexivity].
+    + vm_compute. discriminate.
+    + vm_compute. discriminate.
+    + intros H. vm_compute in H. discriminate.
+    + intros _. vm_compute. reflexivity.
+    + vm_compute. reflexivity.
+    + exact Hh.
+    + exact Ec.
+    + exact Hroot.
+  - intro H. apply (f_equal (fun l => nthZ l 3)) in H. vm_compute in H. discriminate.
+Qed.
